@@ -190,6 +190,9 @@ func checkC11(c *Ctx) {
 			block *ssa.BasicBlock
 		}
 		var tiers []tier
+		var tableRows []tier
+		fromTable := false
+		tableRe := regexp.MustCompile(`^Dec\.Sub\(\$p3,Dec\.QuoInt64\(Dec\.MulInt64\(\$p3,(.+)\),(\d+)\)\)$`)
 		ana.Instrs(gch, func(in ssa.Instruction) {
 			ret, ok := in.(*ssa.Return)
 			if !ok || len(ret.Results) != 1 {
@@ -202,6 +205,25 @@ func checkC11(c *Ctx) {
 			}
 			m := retRe.FindStringSubmatch(ex)
 			if m == nil {
+				// table-driven form: commission - commission*row.percent/100 for the first row of a constant table
+				// whose threshold the holder value reaches
+				if tm := tableRe.FindStringSubmatch(ex); tm != nil && tm[2] == "100" {
+					if kv := discountFactor(ret.Results[0]); kv != nil {
+						rows, why := c.tableTiers(gch, kv, c.decimalsConverter())
+						if why == "" {
+							for i, row := range rows {
+								okRow := row.k > 0 && row.k < 100 && row.n > 0
+								r.Check(okRow, "C11.commission-bound", sprintf("tier-row:%d", i), c.pos(ret), sprintf("tier >= %d HUB: commission - commission*%d/100", row.n, row.k),
+									sprintf("discount table row %d is not a discount 0<k<100 under a positive holder-value threshold (k=%d, threshold=%d)", i, row.k, row.n))
+								tableRows = append(tableRows, tier{row.n, row.k, nil})
+							}
+							fromTable = true
+							return
+						}
+						r.Bad("C11.commission-bound", "return:"+c.pos(ret), c.pos(ret), "table-driven holder discount: "+why)
+						return
+					}
+				}
 				r.Bad("C11.commission-bound", "return:"+c.pos(ret), c.pos(ret), "a return of the holder-commission function is neither commission nor commission - commission*k/100: "+ex)
 				return
 			}
@@ -216,9 +238,14 @@ func checkC11(c *Ctx) {
 					return false
 				}
 				te := p.Expr(call.Call.Args[1], 0)
-				mm := regexp.MustCompile(`^convertDecimals\(0,18,NewInt\((\d+)\)\)$`).FindStringSubmatch(te)
+				mm := regexp.MustCompile(`^\w+\(0,18,NewInt\((\d+)\)\)$`).FindStringSubmatch(te)
 				if mm == nil {
 					return false
+				}
+				if cv := c.decimalsConverter(); cv != nil {
+					if cc, ok := call.Call.Args[1].(*ssa.Call); !ok || cc.Call.StaticCallee() != cv {
+						return false
+					}
 				}
 				if ana.Guarded(ret, ana.AtomCallBool(func(c2 *ssa.Call, _ ana.CalleeDesc) bool { return c2 == call }, true)) {
 					v, _ := strconv.ParseInt(mm[1], 10, 64)
@@ -246,6 +273,18 @@ func checkC11(c *Ctx) {
 			if !tiers[i-1].block.Dominates(tiers[i].block) {
 				okMono = false
 			}
+		}
+		if fromTable && len(tiers) == 0 {
+			// the rows are visited in table order and the first one reached wins (decided with the rows)
+			tiers = tableRows
+			okMono = len(tiers) >= 2
+			for i := 1; i < len(tiers); i++ {
+				if !(tiers[i-1].n > tiers[i].n && tiers[i-1].k > tiers[i].k) {
+					okMono = false
+				}
+			}
+		} else if fromTable {
+			okMono = false // an if-chain mixed with a table: not decided
 		}
 		var desc []string
 		for _, t := range tiers {
@@ -275,6 +314,10 @@ func checkC11(c *Ctx) {
 		}
 	}
 	c.checkUnitsIn("C11.credit", reach, func(f *ssa.Function) bool { return f.Name() == "Handle" || isRoot(f, roots.Msg) })
+	// what the hub credits and schedules is computed from the reported Amount and Fee: for Minter the
+	// connector reports them (Amount = the value moved to the multisig, Fee = the commanded fee, neither
+	// netted against the other, which the hub does itself)
+	c.checkConnectorAmount("C11.credit")
 
 	// ---- stored parts: each of the three stored amounts is the conversion of its own coin ---------------
 	for _, f := range c.SemanticFuncs(reach) {
@@ -403,11 +446,30 @@ func (c *Ctx) checkConverter() {
 			}
 			conv = callee
 			a0, a1 := p.Expr(call.Call.Args[0], 0), p.Expr(call.Call.Args[1], 0)
-			ext, hub := "field:TokenInfo.ExternalDecimals", "18"
+			hub := "18"
+			// the token's external decimals, possibly handed through a lookup helper (no arithmetic on the way)
+			isExt := func(v ssa.Value) bool {
+				l := p.Leaves(v, ana.PVOpt{})
+				fs := l.Fields()
+				if len(fs) != 1 || fs[0] != "TokenInfo.ExternalDecimals" {
+					return false
+				}
+				for op := range l.Ops {
+					if strings.HasPrefix(op, "binop:") || strings.HasPrefix(op, "Int.") || strings.HasPrefix(op, "unop:") {
+						return false
+					}
+				}
+				for lab := range l.Leaves {
+					if strings.HasPrefix(lab, "const:") && lab != "const:0" && lab != "const:nil" && lab != "const:false" && lab != "const:true" {
+						return false
+					}
+				}
+				return true
+			}
 			if wantExtFirst {
-				ok = a0 == ext && a1 == hub
+				ok = isExt(call.Call.Args[0]) && a1 == hub
 			} else {
-				ok = a0 == hub && a1 == ext
+				ok = a0 == hub && isExt(call.Call.Args[1])
 			}
 			detail = "(" + a0 + ", " + a1 + ")"
 			// the amount passed through is the function's amount parameter
@@ -467,4 +529,45 @@ func (c *Ctx) checkConverter() {
 	}
 	r.Check(okShape, "C11.convert-truncates", "shape:"+conv.Name(), p.Pos(conv.Pos()), "result = amount * 10^to / 10^from on one big integer (multiply, then truncating divide)",
 		"the decimals converter is not amount*10^to/10^from (multiply first, then truncating division, nothing added): "+strings.Join(seq, "; "))
+}
+
+// discountFactor returns k of a value commission.Sub(commission.MulInt64(k).QuoInt64(d)).
+func discountFactor(v ssa.Value) ssa.Value {
+	names := []string{"Sub", "QuoInt64", "MulInt64"}
+	argIdx := []int{1, 0, 1}
+	for i, nm := range names {
+		call, ok := v.(*ssa.Call)
+		if !ok {
+			return nil
+		}
+		d, _ := ana.Describe(&call.Call)
+		if d.Name != nm || len(call.Call.Args) != 2 {
+			return nil
+		}
+		v = call.Call.Args[argIdx[i]]
+	}
+	return v
+}
+
+// decimalsConverter is the function the two value-conversion wrappers delegate to (three arguments, the first
+// two of type uint64).
+func (c *Ctx) decimalsConverter() *ssa.Function {
+	var conv *ssa.Function
+	for _, f := range c.P.Funcs {
+		if f.Parent() != nil || !inPkg(f, "mhub2/keeper") || f.Name() != "ConvertFromExternalValue" {
+			continue
+		}
+		ana.Instrs(f, func(in ssa.Instruction) {
+			call, ok := in.(*ssa.Call)
+			if !ok {
+				return
+			}
+			callee := call.Call.StaticCallee()
+			if callee == nil || !c.P.IsModule(callee) || len(call.Call.Args) != 3 || call.Call.Args[0].Type().String() != "uint64" {
+				return
+			}
+			conv = callee
+		})
+	}
+	return conv
 }
